@@ -248,6 +248,8 @@ def replay_kernel(classical, shape, w):
                         want[j, 0] += w[i] * (float(tpm.mode_F(T[j], np.array([f[i, k]]), classical=bool(classical))[0]) - (0 if classical else f[i, k] / 2))
                         want[j, 1] += w[i] * float(tpm.mode_S(T[j], np.array([f[i, k]]), classical=bool(classical))[0])
                         want[j, 2] += w[i] * float(tpm.mode_cv(T[j], np.array([f[i, k]]), classical=bool(classical))[0])
+        if not np.isfinite(props).all():
+            return True, "compiled thermal-properties kernel returns non-finite values %s for temperatures %s (classical=%s)" % (props.tolist(), T.tolist(), classical)
         worst = max(worst, float(np.abs(props - want).max()))
     return worst > 1e-9, "compiled thermal-properties kernel differs by %.3g from the weighted sum over modes with T > 0 and f > cutoff (classical=%s)" % (worst, classical)
 
